@@ -107,6 +107,30 @@ def harnesses(t):
     return ok
 '''
         hs.append(ch.H(f"c12/modes/{tag}", src, timeout=T, prelude=PRE, key="modes_agree", note="n in 0..2 symbolic hits addr::rest, all 8 modes evaluated inside the harness"))
+    # long addresses (12-, 14-, 16-, 17- and 20-digit: 48-bit user space, kernel text, zero-padded listings): a concrete
+    # prefix of k digits followed by symbolic characters, so that any fixed-width handling of the address shows
+    for k in ((11, 13, 15) if t == "quick" else (7, 11, 12, 13, 15, 16, 19, 31)):
+        pfx = ("ffffffff8100000" * 3)[:k]
+        src = f'''def modes_long_{k}(n: int, a1: str, r1: str, a2: str, r2: str) -> bool:
+    """
+    pre: 0 <= n <= 2
+    pre: len(a1) == 1 and len(r1) == 2 and len(a2) == 2 and len(r2) == 1
+    pre: _noc(a1) and _noc(a2)
+    post: _
+    """
+    hits = ["{pfx}" + a1 + "::" + r1, "{pfx}" + a2 + "::" + r2][:n]
+    addrs = ["{pfx}" + a1, "{pfx}" + a2][:n]
+    ok = True
+    for all_mode in (False, True):
+        for only_addr in (False, True):
+            b, calls_b = _run(hits, False, all_mode, only_addr)
+            l, calls_l = _run(hits, True, all_mode, only_addr)
+            exp_full = hits if all_mode else hits[:1]
+            exp = (addrs if all_mode else addrs[:1]) if only_addr else exp_full
+            ok = ok and (b is (n > 0)) and l == exp and (b is (len(l) > 0))
+    return ok
+'''
+        hs.append(ch.H(f"c12/modes_long/{k}", src, timeout=T, prelude=PRE, key="modes_agree", note=f"addresses of {k}+1 / {k}+2 digits (concrete prefix, symbolic tail), all 8 modes"))
     # address of a hit = text before the first '::' (unit level, symbolic text with a free tail)
     for tp in ([(1, 2), (2, 3), (3, 1)] + ([(4, 4), (1, 6)] if t == "thorough" else [])):
         tag = "".join(map(str, tp))
